@@ -74,3 +74,40 @@ pub fn crosscheck_records(ctx: &mut crate::ev::Ctx, records: &[crate::tok::Recor
     let prev = ctx.extra.get("e1_e2_expansions_agreeing").and_then(|v| v.as_u64()).unwrap_or(0);
     ctx.extra.insert("e1_e2_expansions_agreeing".into(), serde_json::json!(prev + agreed));
 }
+
+/// Programs of a behavioural (run-time) check that did not compile: a program whose *plain twin* (same program without the
+/// entrait attribute and without the code that needs the generated items) compiles failed because of the expansion -
+/// that is reported as a violation. A failing twin is a generator fault (counted; the caller decides about inconclusive).
+/// Returns (violations reported, generator faults).
+pub fn judge_compile_failures(
+    ctx: &mut crate::ev::Ctx,
+    name: &str,
+    feature_unimock: bool,
+    failed: &[(String, String, String, String)], // (summary, src, twin src, first error)
+    what: &str,
+) -> (usize, usize) {
+    if failed.is_empty() {
+        return (0, 0);
+    }
+    let mut b = crate::e2::Batch::new(&format!("{name}-twins"), crate::e2::Opts { feature_unimock, members: 8, check_only: true, ..Default::default() });
+    for (i, f) in failed.iter().enumerate() {
+        b.add(&format!("t{i:05}"), f.2.clone());
+    }
+    let out = b.build_and_run();
+    b.cleanup();
+    let mut faults = 0;
+    for (i, f) in failed.iter().enumerate() {
+        if out.compile_failed.contains_key(&format!("t{i:05}")) {
+            faults += 1;
+            ctx.class("generator_invalid_twin_failed");
+            continue;
+        }
+        ctx.count_eval();
+        ctx.violation(
+            &format!("{what}: the program does not compile although its attribute-free twin does: {} -- in {}", f.3.lines().next().unwrap_or(""), f.0),
+            &serde_json::json!({"engine": "E2", "feature_unimock": feature_unimock, "src": f.1, "twin": f.2, "summary": f.0, "expect": "compiles"}),
+        );
+        return (1, faults);
+    }
+    (0, faults)
+}
